@@ -7,5 +7,5 @@ sed -i "$2" "$3"
 git diff | grep '^[+-]' | grep -v '^+++\|^---' | head -10
 cd /verif
 set +e
-VERIF_REPO=/tmp/wt timeout 1200 ./vcheck $1; echo "exit=$?"
+VERIF_REPO=/tmp/wt VERIF_DEV_RUN=1 timeout 3000 ./vcheck $1; echo "exit=$?"
 git -C /repo worktree remove --force /tmp/wt
